@@ -81,8 +81,8 @@ seeded changes and which check catches which in §11.
   statements (C09 independence, C13 end to end, C14, the round trip of C15/C16, agreement of `fill_inplace` with `wrap`,
   C08's second sentence), the real
   tables of `unicode-linebreak` / `unicode-width` / `smawk` behind the assumed shapes.
-* **Robustness of the machinery** (§8, §11): 88 seeded property-breaking changes that compile and pass the upstream suite
-  (5 reverted fixes + 83 from independent sub-agents in five waves) are all reported; 25 behaviour-preserving refactors
+* **Robustness of the machinery** (§8, §11): 120 seeded property-breaking changes that compile and pass the upstream suite
+  (5 reverted fixes + 115 from independent sub-agents in seven waves) are all reported; 25 behaviour-preserving refactors
   raise no alarm; every unit verifies under 8 different SMT seeds; the unchanged tree passes all 20 checks in both tiers.
 """)
 w(s1.rstrip()+"\n")
@@ -342,10 +342,11 @@ the property states.
 
 ## 11. Seeded changes and what catches them
 
-`seeded/` holds 88 changes that compile, pass the upstream suite in both feature sets, and break a property: the 5
-reverted fixes and 83 produced by independent sub-agents given **only** the property text and a scratch worktree (wave 1–2:
+`seeded/` holds 120 changes that compile, pass the upstream suite in both feature sets, and break a property: the 5
+reverted fixes and 115 produced by independent sub-agents given **only** the property text and a scratch worktree (wave 1–2:
 two per property; wave 3: cooperating edits / indirect helpers / wrong fast paths; wave 4–5: changes that need something
-specific to manifest, avoiding the most obvious single-token edits). Each was confirmed by `tools/seedverify.sh` (patch applies; suite passes in both feature sets;
+specific to manifest, avoiding the most obvious single-token edits; wave 6: with a hint which file to change; wave 7: with the
+ideas that earlier waves over-used forbidden (ASCII width shortcuts, `trim_end()`, byte lengths of indents, early return in `refill`)). Each was confirmed by `tools/seedverify.sh` (patch applies; suite passes in both feature sets;
 its demonstration fails with the patch and passes without). `tools/seedtest.py` applies each to `/repo`, runs the checks
 of the properties it breaks, and undoes it; `seeded/RESULTS.json` is its output and **`seeded/RESULTS.md` the full table**
 (seed, property, files changed, Verus obligations failed, BEC contracts failed, undecided units, verdict).
@@ -364,6 +365,9 @@ Misses on first contact and what was strengthened (never by weakening a check):
 | 5 | w5_C20_A (ASCII fast path for cell widths in a new helper of `columns.rs`) | no escape sequence or zero-width character in the column alphabet; Verus undecided (unknown helper function) | `ESC[1m`, tab and a combining mark added to the column alphabet |
 | 5 | w5_C09_A (`split('\\n')` + `strip_suffix('\\r')` for CRLF) | CRLF only ran over an alphabet without a lone `\\r`; every other suite used LF | lone `\\r` in the CRLF alphabet; the broad-alphabet and random passes of every wrap suite now run each option combination with both line endings |
 | 6 | w6_C02_A (last piece of a split word gets `word.width - widths of the earlier pieces`) | only wrong when a split point falls inside an escape sequence; no sequence with a hyphen in the alphabets | hyperlink with a hyphenated URL added to the broad alphabet (which also surfaced known findings KF5/KF6) |
+| 6 | w6_C07_A (same patch as w6_C11_A: ASCII fast path for the width cached by `Word::from`) | not a miss: `split_words` re-measures every word, so `wrap` is unaffected and first-fit still follows the greedy rule for the widths its fragments report; the broken property is C11 | seed relabelled (C11, which reports it); a tab was added to the core wrap alphabet all the same |
+| 7 | w7_C05_A (shortcut extended to indented lines, dropping a zero-width indent) | C05 / C09 / C14 ran only the four ASCII indent pairs | the broad-alphabet and random passes of every wrap suite now run every indent pair (multi-byte, zero-width, ANSI-coloured, wider than the width) with both line endings |
+| 7 | w7_C15_A (`unfill` stops measuring lines once the common indent is empty) | round-trip paragraphs had at most three words in the quick tier, so never four lines | a pass over fixed paragraphs of 6–8 words (widest line first / last / in the middle) |
 
 **Verus on its own** (`tools/seedverus.py`, `seeded/VERUS.json`: each change applied to a scratch copy, only the Verus units run):
 a Verus obligation rejects 42 of the 77 changes; the others end *undecided* in Verus (a new construct without a spec, a
